@@ -2,7 +2,11 @@
 (* Case enumeration and design checks for C28.
 
    Mode "draw":   every configuration [api, seed, dist, shape, chunks, nth] of the
-                  bounded space (all chunkings of the listed shapes).
+                  bounded space (all chunkings of the listed shapes; dist ranges over
+                  every distribution method of the API, choice with / without
+                  replacement / probabilities / array population, permutation).
+   Mode "pairs":  k = 2, 3 successive identical calls on ONE unseeded generator object,
+                  every distribution, every chunking.
    Mode "choice": every choice(replace=False) request: population size n <= N
                   given as an integer or as an array under every chunking, every
                   size 0..n, output in one chunk or (size >= 2) split in two
@@ -16,8 +20,20 @@ EXTENDS Random, Chunks, Json
 CONSTANTS Mode, N, Shapes, Seeds
 VARIABLES case, out
 
-GenDists == { "random", "normal", "integers", "uniform", "poisson", "standard_normal", "exponential" }
-RsDists  == { "random_sample", "normal", "randint", "uniform", "poisson", "standard_normal", "exponential" }
+CommonDists == { "beta", "binomial", "chisquare", "exponential", "f", "gamma", "geometric", "gumbel", "hypergeometric", "laplace",
+                 "logistic", "lognormal", "logseries", "negative_binomial", "noncentral_chisquare", "noncentral_f", "normal",
+                 "pareto", "poisson", "power", "rayleigh", "standard_cauchy", "standard_exponential", "standard_gamma",
+                 "standard_normal", "standard_t", "triangular", "uniform", "vonmises", "wald", "weibull", "zipf", "multinomial",
+                 "normal_nparg", "normal_daarg",
+                 "choice", "choice_arraypop", "choice_p", "choice_norep", "permutation" }
+GenDists == CommonDists \cup { "random", "integers", "choice_noshuffle" }
+RsDists  == CommonDists \cup { "random_sample", "randint", "tomaxint", "random_integers" }
+\* Mode "pairs": k successive identical calls on ONE unseeded generator object.  permutation is left out: the
+\* permuted array is an indexing of its argument by the index drawn at creation, so two calls that happen to
+\* draw the same permutation of a tiny axis rightly share their name
+PairCases == UNION { [api: { "Generator" }, dist: GenDists \ { "permutation" }, shape: { sh }, chunks: NDChunkings(sh), k: { 2, 3 }]
+                     \cup [api: { "RandomState" }, dist: RsDists \ { "permutation" }, shape: { sh }, chunks: NDChunkings(sh), k: { 2, 3 }]
+                     : sh \in Shapes }
 DrawCases == UNION { [api: { "Generator" }, seed: Seeds, dist: GenDists, shape: { sh }, chunks: NDChunkings(sh), nth: { 1, 2 }]
                      \cup [api: { "RandomState" }, seed: Seeds, dist: RsDists, shape: { sh }, chunks: NDChunkings(sh), nth: { 1, 2 }]
                      : sh \in Shapes }
@@ -31,10 +47,11 @@ ChoiceCases == UNION { UNION { [api: { "Generator", "RandomState" }, seed: Seeds
 
 \* design mode
 Fps == { 0, 1, 2 }
-ObsSeqs == UNION { [1..m -> [how: { "sync", "threads" }, fp: Fps]] : m \in 1..3 }
+ObsSeqs == UNION { [1..m -> [how: { "sync", "threads" }, obj: { 1, 2 }, fp: Fps]] : m \in 1..3 }
 ResSeqs == UNION { [1..m -> 1..3] : m \in 0..3 }
 
 Init == /\ case \in (CASE Mode = "draw" -> DrawCases
+                       [] Mode = "pairs" -> PairCases
                        [] Mode = "choice" -> { c \in ChoiceCases : c.api = "Generator" \/ c.shuffle }   \* RandomState has no shuffle flag
                        [] Mode = "design" -> [kind: { "obs" }, obs: ObsSeqs] \cup [kind: { "res" }, res: ResSeqs, size: 0..3])
         /\ out = IF Mode = "design" THEN "" ELSE ToJson(case)
@@ -42,6 +59,10 @@ Next == UNCHANGED <<case, out>>
 
 \* the fold rejects exactly the non-deterministic / raised observation sequences
 DrawFoldIsGlobal == (Mode = "design" /\ case.kind = "obs") => ((DrawBad(case.obs) = {}) = DrawDeterministic(case.obs))
+\* a Recompute clause is raised only for a history in which one collection object had two values, and every such history is rejected
+RecomputeBlame == (Mode = "design" /\ case.kind = "obs") =>
+                    /\ (DrawBad(case.obs) \cap { "Recompute_sync", "Recompute_threads" } # {}) => ~RecomputeOK(case.obs)
+                    /\ ~RecomputeOK(case.obs) => DrawBad(case.obs) # {}
 \* the clause set of a choice result is empty exactly when the contract holds (population <<1, 2>>)
 ChoiceFoldIsGlobal == (Mode = "design" /\ case.kind = "res") =>
                         ((ChoiceBad(<<1, 2>>, case.size, case.res) = {}) = ChoiceOK(<<1, 2>>, case.size, case.res))
